@@ -229,11 +229,53 @@ def run_case(case):
                             proc.add_info(ident, payload(f'p{p}', 'app', 0, 100.0 + rnd))
                         app.add_process(proc)
                         procs[f'app:p{p}'] = (proc, prules.expected_load, list(prules.identifiers), known)
+                    # one more process, outside the start sequence, without load, with its own identifiers rule: it
+                    # is requested while the application is being started (it joins the job in progress)
+                    xrules = ProcessRules(sv)
+                    xrules.start_sequence = 0
+                    xrules.expected_load = 0
+                    xrules.identifiers = rng.sample(idents, rng.randint(1, len(idents))) if rng.random() < 0.7 else ['*']
+                    procx = ProcessStatus('app', 'px', xrules, sv)
+                    known_x = list(idents)   # known everywhere: the choices made for the application are unchanged
+                    for ident in known_x:
+                        procx.add_info(ident, payload('px', 'app', 0, 100.0 + rnd))
+                    app.add_process(procx)
                     app.update_sequences()
                     app.update()
                     del requests[:]
                     sv.starter.start_application(StartingStrategies[strategy], app)
                     targets = dict((ns, ident) for ident, ns in requests)
+                    added_problem = None
+                    if distribution != 'ALL_INSTANCES' and targets and sv.starter.in_progress():
+                        n0 = len(requests)
+                        sv.starter.start_process(StartingStrategies[strategy], procx)
+                        added = [ident for ident, ns in requests[n0:] if ns == 'app:px']
+                        if not added:
+                            # not requested yet (it waits for the sequence group in progress): the instance it has
+                            # been assigned to is read on its command in the job of the application
+                            job = sv.starter.current_jobs.get('app')
+                            if job is not None:
+                                added = [c.identifier for c in job.current_jobs + sum(job.planned_jobs.values(), [])
+                                         if c.process is procx]
+                        app_ok = idents if '*' in app_ids else app_ids
+                        if distribution == 'SINGLE_INSTANCE':
+                            place = set(targets.values())
+                        else:
+                            nodes_used = {node_of[i] for i in targets.values()}
+                            place = {i for i in idents if node_of[i] in nodes_used and i in app_ok and i in running}
+                        cands_x = sorted(i for i in place if i in known_x)
+                        if cands_x and len(set(node_of[i] for i in targets.values())) == 1:
+                            counters['processes_added_to_a_job_in_progress'] = \
+                                counters.get('processes_added_to_a_job_in_progress', 0) + 1
+                            if '*' not in xrules.identifiers and not set(xrules.identifiers) & set(cands_x):
+                                counters['added_processes_whose_own_rule_excludes_the_place'] = \
+                                    counters.get('added_processes_whose_own_rule_excludes_the_place', 0) + 1
+                            if len(added) != 1 or added[0] not in cands_x:
+                                added_problem = (f'{distribution} process app:px (no load, known on {sorted(known_x)}, own '
+                                                 f'identifiers rule {xrules.identifiers}) requested while the application '
+                                                 f'is being started on {sorted(set(targets.values()))}: requests {added}, '
+                                                 f'expected one request among {cands_x} (the application rule '
+                                                 f'{app_ids} replaces the program rule)')
                     sv.starter.abort()
                     sv.state_modes.starting_jobs = False
                     counters['application_runs'] += 1
@@ -298,8 +340,10 @@ def run_case(case):
                             feasible = []
                             for node in sorted(set(node_of.values())):
                                 on_node = [i for i in app_allowed if node_of[i] == node]
+                                # (app:px, outside the sequence, is a process of the application known everywhere)
                                 if all(any(i in v[3] for i in on_node) for v in procs.values()):
-                                    feasible.extend(i for i in on_node if any(i in v[3] for v in procs.values()))
+                                    feasible.extend(i for i in on_node
+                                                    if i in known_x or any(i in v[3] for v in procs.values()))
                             cands = [i for i in app_allowed if i in feasible]
                             acceptable, eligible, _ = ref_acceptable(strategy, cands, running, node_of, inst_load,
                                                                      node_load, {}, total_load, local)
@@ -330,6 +374,10 @@ def run_case(case):
                                   'application_identifiers': app_ids, 'inst_load': inst_load,
                                   'node_of': node_of, 'running': sorted(running),
                                   'process_loads': {ns: v[1] for ns, v in procs.items()}}
+                    if added_problem:
+                        violations.append({'key': f'C14/{distribution}:added-process', 'msg': added_problem +
+                                           f' - strategy={strategy} running={sorted(running)} inst_load={inst_load} '
+                                           f'node_of={node_of}'})
                     if problems:
                         violations.append({'key': f'C14/{distribution}:' + problems[0].split(' ')[1][:20],
                                            'msg': '; '.join(problems[:4]) + f' - strategy={strategy} app_ids={app_ids} '
